@@ -1194,6 +1194,18 @@ def _process_update(
         Tuple of the deferred update (in absolute terms) and
         ``store``.
     """
+    # Ports that the topology leaves out are wired to the store of the
+    # same name (see Store._topology_ports and Store.schema_topology), so
+    # the updates of these ports have to go there too.
+    topology = store.topology
+    schema = getattr(process, 'schema', None)
+    if isinstance(schema, dict) and isinstance(topology, dict):
+        default_ports = {
+            port: (port,) for port in schema
+            if port not in topology and not port.startswith('_')}
+        if default_ports:
+            topology = dict(topology, **default_ports)
+
     process = _invoke_process(
         process,
         interval,
@@ -1202,7 +1214,7 @@ def _process_update(
     absolute = Defer(
         process,
         invert_topology,
-        (path, store.topology))
+        (path, topology))
 
     return absolute, store
 
